@@ -154,7 +154,10 @@ pub fn execute(scn: &Scn, property: &str) -> RunOutcome {
         // ---- apply the operation to the real animator and to the model ---------------------
         let res = match op {
             Op::Advance(dt) => {
-                if *dt >= 1e9 {
+                if !dt.is_finite() {
+                    // (an infinite frame saturates the clock; it is counted, not summed)
+                    out.count("probe.infinite_frame");
+                } else if *dt >= 1e9 {
                     out.astro_seconds += *dt as f64;
                 } else {
                     out.sim_seconds += *dt as f64;
